@@ -190,6 +190,14 @@ MaxSized == { [k |-> "KE", grp |-> 2, data |-> D(65527, 1)], [k |-> "NONCE", dat
               [k |-> "CP", cft |-> 1, attrs |-> << CA(1, D(65523, 8)) >>],
               [k |-> "EAP", eap |-> [code |-> 1, id |-> 1, m |-> "identity", data |-> D(65526, 9)]] }
 
+\* header fields x Notify types that carry protocol meaning (COOKIE 16390, INVALID_KE_PAYLOAD 17, NO_PROPOSAL_CHOSEN 14, a status type): the
+\* codec treats a Notify as a Notify and a header as a header whatever the exchange type, the flags and the SPIs say -- full product
+Nt(t, n) == [k |-> "N", proto |-> 0, ntype |-> t, spi |-> << >>, data |-> D(n, t)]
+NotifyChains == { << Nt(16390, 20) >>, << Nt(17, 2) >>, << Nt(14, 0), Nt(16390, 8) >>, << Rep("SA"), Rep("KE"), Rep("NONCE"), Nt(16390, 20), Nt(16388, 20) >>,
+                  << Nt(16388, 20), Rep("NONCE"), Nt(16390, 64) >> }
+NotifyHdrMsgs == { [ispi |-> D(8, 2), rspi |-> r, maj |-> 2, min |-> 0, xt |-> x, flags |-> f, mid |-> << 0, 0, 0, m >>, payloads |-> c] :
+                     r \in { Zeros(8), D(8, 3) }, x \in {34, 35, 36, 37}, f \in {0, 8, 32, 40}, m \in {0, 1}, c \in NotifyChains }
+
 \* message pool: chains of payloads
 Chains1 == { << p >> : p \in AllSingles }
 Chains2 == { << Rep(a), Rep(b) >> : a \in PKindSet, b \in PKindSet }
